@@ -7,6 +7,8 @@ import YkDrv.QueueDrv
 import YkDrv.CoreDrv
 import YkDrv.SortDrv
 import YkDrv.PlaceDrv
+import YkDrv.ReloadDrv
+import YkDrv.MalDrv
 import YkDrv.RecoverDrv
 import YkDrv.ConfDrv
 import YkDrv.UgmDrv
@@ -19,6 +21,8 @@ structure DrvState where
   queue : QueueSt := {}
   core : CoreSt := {}
   place : PlaceSt := {}
+  reload : ReloadSt := {}
+  mal : MalSt := {}
   recover : RecoverSt := {}
   ugm : UgmSt := {}
   preempt : PreSt := {}
@@ -37,6 +41,8 @@ def dispatch (st : DrvState) (j : Json) : Except String (DrvState × String) := 
   | "preempt" => let (r, v) ← preemptStep st.preempt j; pure ({ st with preempt := r }, v)
   | "ugm" => let (r, v) ← ugmStep st.ugm j; pure ({ st with ugm := r }, v)
   | "recover" => let (r, v) ← recoverStep st.recover j; pure ({ st with recover := r }, v)
+  | "mal" => let (r, v) ← malStep st.mal j; pure ({ st with mal := r }, v)
+  | "reload" => let (r, v) ← reloadStep st.reload j; pure ({ st with reload := r }, v)
   | "place" => let (r, v) ← placeStep st.place j; pure ({ st with place := r }, v)
   | _ => pure (st, "bad-op")
 
